@@ -825,3 +825,24 @@ Definition civil_year (unix_sec off : Z) : Z :=
 (* the instants of the statements: what a time.Time of the years 0..9999 can be *)
 Definition instant_ok (unix_sec nsec off : Z) : Prop :=
   0 <= civil_year unix_sec off <= 9999 /\ 0 <= nsec < 1000000000 /\ -360000 < off < 360000.
+
+(* a whole text against a layout: the concatenation of one piece per item, each of its shape *)
+Definition piece_ok (it : item) (p : bytes) : Prop :=
+  match it with Lit c => p = [c] | El e => elem_shape e p = true end.
+
+(* Go prints offsets in (-60 s, 0) under a seconds-bearing zone element as +00:00:-SS
+   (three characters of seconds): every other zone text has the element's shape *)
+Definition zone_printable (its : list item) (off : Z) : bool :=
+  negb (zone_has_seconds its && (-60 <? off) && (off <? 0)).
+
+(* instant_ok as a boolean (for the examples and the correspondence) *)
+Definition instant_okb (unix_sec nsec off : Z) : bool :=
+  (0 <=? civil_year unix_sec off) && (civil_year unix_sec off <=? 9999)
+  && (0 <=? nsec) && (nsec <? 1000000000) && (-360000 <? off) && (off <? 360000).
+
+(* a layout carries a whole instant: date, time of day and numeric zone *)
+Definition carries_instant (layout : bytes) : bool :=
+  let its := tokens layout in
+  has_kind its FYear && has_kind its FMonth && has_kind its FDay
+  && (has_kind its FHour || (has_kind its FH12 && has_kind its FPm))
+  && has_kind its FMin && has_kind its FSec && has_kind its FOff.
